@@ -51,6 +51,14 @@ var calls = []call{
 	{"POST", "create", "/things", true, ""},
 	{"POST", "action", "/things", true, "action=act"},
 	{"POST", "action", "/things/k1", true, "action=eact"},
+	// a simple resource (routing there leans on the verb even when the method header is present) and a sub-resource
+	{"GET", "get", "/single", false, ""},
+	{"DELETE", "delete", "/single", false, ""},
+	{"PUT", "update", "/single", true, ""},
+	{"POST", "partial_update", "/single", true, ""},
+	{"POST", "action", "/single", true, "action=sact"},
+	{"GET", "get", "/things/k1/parts/p1", false, ""},
+	{"PUT", "update", "/things/k1/parts/p1", true, ""},
 }
 
 func headerSubset(h http.Header) map[string][]string {
@@ -74,6 +82,8 @@ func Run(run *ev.Run) {
 		Finders:  []string{"f"},
 		Actions:  []kit.ActionSpec{{Name: "act"}, {Name: "eact", OnEntity: true}},
 	}, rec)
+	kit.Register(srv, kit.ResourceSpec{Segments: []kit.Segment{{Name: "single"}}, Methods: []string{"get", "update", "partial_update", "delete"}, Actions: []kit.ActionSpec{{Name: "sact"}}}, rec)
+	kit.Register(srv, kit.ResourceSpec{Segments: []kit.Segment{{Name: "things", IsCollection: true}, {Name: "parts", IsCollection: true}}, Methods: []string{"get", "update"}}, rec)
 	ln, err := net.Listen("tcp", "127.0.0.1:0")
 	if err != nil {
 		run.Inconclusive("cannot listen on loopback: " + err.Error())
@@ -202,7 +212,7 @@ func Run(run *ev.Run) {
 			}
 		}
 		rec.Drain()
-		w, err := cl.Do(c.HTTP, c.Restli, "things", c.Path, qp, b, http.Header{"X-Verif-Req": {fmt.Sprint(reqN)}})
+		w, err := cl.Do(c.HTTP, c.Restli, strings.SplitN(strings.TrimPrefix(c.Path, "/"), "/", 2)[0], c.Path, qp, b, http.Header{"X-Verif-Req": {fmt.Sprint(reqN)}})
 		return w, rec.Drain(), err
 	}
 	paramValues := []string{"", "x", "a&b=c", "\r\n", "--b\r\n", "100%", strings.Repeat("z", 40), "é", strings.Repeat("w", 3000)}
@@ -342,7 +352,7 @@ func Run(run *ev.Run) {
 					}
 					run.Count("e2e_pairs", 1)
 					if tunnelled {
-						run.Distinct(fmt.Sprintf("%s|e2e|%s %s|%s|%d|%d|%v", g, c.HTTP, c.Restli, trunc(q), bi, T, vr.chunked))
+						run.Distinct(fmt.Sprintf("%s|e2e|%s %s %s|%s|%d|%d|%v", g, c.HTTP, c.Restli, c.Path, trunc(q), bi, T, vr.chunked))
 						if len(pv) > 1000000 || len(body) > 1000000 {
 							run.Count("tunnelled_requests_over_1MiB", 1)
 						}
@@ -354,6 +364,64 @@ func Run(run *ev.Run) {
 						run.Sample(desc)
 					}
 				}
+			}
+		}
+	}
+
+	// ---- B2. well-formed envelopes written by other clients -----------------------------------------
+	// The multipart boundary is the sender's choice (case-sensitive, up to 70 characters from a wide alphabet); media
+	// type and parameter names are case-insensitive. Such a request must reach resource code like the plain one.
+	foreign := []struct{ name, boundary, ctype string }{
+		{"javamail-boundary", "----=_Part_0_1234567.1700000000000", `multipart/mixed; boundary="----=_Part_0_1234567.1700000000000"`},
+		{"upper-hex-boundary", "A1B2C3D4E5F60718", `multipart/mixed; boundary=A1B2C3D4E5F60718`},
+		{"mixed-case-boundary", "xYzBoundaryXyZ", `multipart/mixed; boundary=xYzBoundaryXyZ`},
+		{"mixed-case-media-type", "plainboundary42", `Multipart/Mixed; Boundary=plainboundary42`},
+		{"boundary-with-punctuation", "b'()+_,-./:=?B", `multipart/mixed; boundary="b'()+_,-./:=?B"`},
+		{"extra-parameter", "QwErTy", `multipart/mixed; charset=UTF-8; boundary=QwErTy`},
+	}
+	for _, fe := range foreign {
+		for _, tc := range []struct{ verb, restli, path, query, body string }{
+			{"PUT", "update", "/things/k1", "p=1&z=a%20b", `{"a":"b"}`},
+			{"POST", "partial_update", "/single", "p=x", `{"patch":{"$set":{"a":"B"}}}`},
+		} {
+			run.Eval(1)
+			var buf bytes.Buffer
+			w := multipart.NewWriter(&buf)
+			if err := w.SetBoundary(fe.boundary); err != nil {
+				run.Inconclusive("boundary rejected by mime/multipart: " + err.Error())
+				continue
+			}
+			pw, _ := w.CreatePart(textproto.MIMEHeader{"Content-Type": {"application/x-www-form-urlencoded"}})
+			pw.Write([]byte(tc.query))
+			pw, _ = w.CreatePart(textproto.MIMEHeader{"Content-Type": {"application/json"}})
+			pw.Write([]byte(tc.body))
+			w.Close()
+			rec.Drain()
+			req, _ := http.NewRequest("POST", base.String()+tc.path, bytes.NewReader(buf.Bytes()))
+			req.Header.Set("X-HTTP-Method-Override", tc.verb)
+			req.Header.Set("Content-Type", fe.ctype)
+			req.Header.Set("X-RestLi-Protocol-Version", "2.0.0")
+			req.Header.Set("X-RestLi-Method", tc.restli)
+			resp, err := http.DefaultClient.Do(req)
+			desc := map[string]any{"generation": g, "envelope": fe.name, "content_type": fe.ctype, "call": tc.verb + " " + tc.path + "?" + tc.query}
+			if err != nil {
+				desc["error"] = err.Error()
+				run.Violation(g+"/foreign-envelope/no-response/"+fe.name, desc)
+				continue
+			}
+			rb, _ := io.ReadAll(resp.Body)
+			resp.Body.Close()
+			inv := rec.Drain()
+			desc["status"], desc["resp_body"], desc["invocations"] = resp.StatusCode, trunc(string(rb)), len(inv)
+			run.Count("foreign_envelopes", 1)
+			switch {
+			case resp.StatusCode/100 != 2 || len(inv) != 1:
+				run.Violation(g+"/foreign-envelope/not-delivered/"+fe.name, desc)
+			case inv[0].HTTPMethod != tc.verb || inv[0].RawQuery != tc.query || inv[0].Body != tc.body || inv[0].Method != tc.restli:
+				desc["seen"] = inv[0]
+				run.Violation(g+"/foreign-envelope/resource-sees-different-request/"+fe.name, desc)
+			default:
+				run.Distinct(g + "|foreign-envelope|" + fe.name + "|" + tc.restli)
 			}
 		}
 	}
